@@ -233,6 +233,37 @@ Example C12_deferred_walk_nonvacuous :
     match parseDeferredBlocks 6 400 0 s with Ok (res, s') => res = ROk /\ lp s' = 4 | _ => False end.
 Proof. exact walk_hyps_example. Qed.
 
+(** the hypotheses of C12_parse_total_partial_nopanic_tail are satisfiable by the same state; the three last passes return ok *)
+Example C12_tail_nonvacuous :
+  exists (s : pstate) (g : ghost) (n : N),
+    R (p_tree s) g /\
+    (forall i o, TreeSpec.get (p_tree s) i = Some o -> o_opcode o <> opFreed -> opInfo (o_infoIndex o) <> None) /\
+    rok (p_r s) /\ Forall (glive g) (p_scopeStack s) /\ Inv (p_tables s) s /\
+    glive g 0 /\ groot g 0 /\ TM NoX s g /\
+    (forall i o, TreeSpec.get (p_tree s) i = Some o -> o_opcode o <> opFreed -> o_opcode o = aml_pOpIntNamePathOrMethodCall ->
+                 exists tbl sl, o_value o = Some (VBytes tbl sl)) /\
+    dcnt s g 0 n /\
+    lp s + n * (8 * r_len (p_r s) + 3) + 4 <= InvalidIndex /\
+    match parse_tail 6 400 10 10 s with Ok (b, s') => b = true /\ lp s' = 4 | _ => False end.
+Proof. exact tail_hyps_example. Qed.
+
+(** the same with a pending BankField (object x with a FieldList argument, pending, child of the root): on the table
+    BankField (REG0, BNK0, Zero, 1) { FLD0, 8 } the block inserts the NamedField FLD0 behind the BankField into the list of the
+    root, which the walk is iterating; all three passes return ok, seven objects in the pool *)
+Example C12_tail_bankfield_nonvacuous :
+  exists (s : pstate) (g : ghost) (n : N),
+    R (p_tree s) g /\
+    (forall i o, TreeSpec.get (p_tree s) i = Some o -> o_opcode o <> opFreed -> opInfo (o_infoIndex o) <> None) /\
+    rok (p_r s) /\ Forall (glive g) (p_scopeStack s) /\ Inv (p_tables s) s /\
+    glive g 0 /\ groot g 0 /\ TM NoX s g /\
+    (forall i o, TreeSpec.get (p_tree s) i = Some o -> o_opcode o <> opFreed -> o_opcode o = aml_pOpIntNamePathOrMethodCall ->
+                 exists tbl sl, o_value o = Some (VBytes tbl sl)) /\
+    dcnt s g 0 n /\
+    (exists x, hasfl s x /\ isflag s x = true /\ In x (kids g 0)) /\
+    lp s + n * (8 * r_len (p_r s) + 3) + 4 <= InvalidIndex /\
+    match parse_tail 6 400 10 10 s with Ok (b, s') => b = true /\ lp s' = 7 | _ => False end.
+Proof. exact tail_bankfield_example. Qed.
+
 (** a table with a While loop, a Buffer with a computed size, a BankField with its field list, a method and calls of it inside
     the deferred blocks parses (all passes) *)
 Example C12_deferred_runs :
